@@ -90,8 +90,11 @@ fn agree_stream(rep: &mut Report, rng: &mut Rng, n: usize) {
     let mut server = Server::start().ok();
     if server.is_none() { rep.notes.push("frontends/agree: server could not be started".into()); }
     for i in 0..n {
-        let d = doc(rng);
-        let cfg = if rng.chance(1, 2) { FCfg { add_metadata: rng.chance(1, 2), ..Default::default() } } else {
+        // one case in eight is about the loop limit: a loop just below / at / above the limit that the
+        // configuration (or the default) sets - every front-end must apply the same limit
+        let limit_case = rng.chance(1, 8);
+        let d = if limit_case { format!("<svg><loop count=\"{}\"><rect wh=\"1\"/></loop></svg>", rng.pick(&[4u32, 5, 6, 10, 12, 13, 999, 1000, 1001, 1010, 1024, 1025])) } else { doc(rng) };
+        let cfg = if limit_case { FCfg { loop_limit: *rng.pick(&[1000u32, 1000, 5, 12]), ..Default::default() } } else if rng.chance(1, 2) { FCfg { add_metadata: rng.chance(1, 2), ..Default::default() } } else {
             FCfg { seed: rng.below(50) as u64, scale: *rng.pick(&[1.0f32, 2.0, 0.5]), border: *rng.pick(&[5u16, 0, 9]), add_metadata: rng.chance(1, 4), no_auto_styles: rng.chance(1, 5), theme: *rng.pick(&[None, Some("dark"), Some("bold")]), loop_limit: 1000 }
         };
         st.case(&d, true, || json!({"document": d}));
